@@ -201,6 +201,13 @@ def build_harness(spec, tier, extra_defs=(), keep=False, native=False):
     for inc in re.findall(r'#include "gen/(\w+\.inc)"', htxt):
         open(os.path.join(d, "gen", inc), "w").close()
     incs.append("-I" + d)
+    if spec.get("light"):
+        # "light" enforcement: the contract's ensures clauses of the function under
+        # test become labelled assertions after the call in the harness (with
+        # snapshots for OLD), checked by plain CBMC without DFCC's write-set
+        # instrumentation; the frame is asserted explicitly by the harness.
+        import native as nat
+        nat.gen_includes(spec, d, list(BASE_DEFS) + spec_defs(spec, tier) + list(extra_defs), incs, cbmc=True)
     units = [(os.path.join(VERIF, "harness", spec["src"]), spec.get("contracts", []))]
     for t in specs.tus_of(spec):
         units.append((os.path.join(SRC, t), spec.get("tu_contracts", ["public.h"])))
@@ -405,8 +412,8 @@ def guards(res):
     # 1. must-fire: labels in the harness file, in the enforced function's contract,
     #    and those the spec names explicitly
     must = set(scan_labels(os.path.join(VERIF, "harness", spec["src"])).values())
-    if spec.get("enforce"):
-        must |= set(contract_labels(spec["enforce"]))
+    if spec.get("enforce") or spec.get("light_fn"):
+        must |= set(contract_labels(spec.get("enforce") or spec["light_fn"]))
     must |= set(spec.get("must", []))
     must -= set(spec.get("may_not_fire", []))
     for lab in sorted(must):
